@@ -65,6 +65,43 @@ pub fn worker_main(args: &[String]) -> i32 {
     let from: u64 = args[4].parse().unwrap();
     let to: u64 = args[5].parse().unwrap();
     let want_trace = args.get(6).map(|s| s == "trace").unwrap_or(false);
+    // Process recycling: a long slice is handed to short-lived child workers one chunk at a time
+    // (their output goes straight to the parent's pipe). Memory that the code under test - or a
+    // dependency such as a never-started rayon pool - does not give back cannot accumulate over
+    // millions of runs this way.
+    const CHUNK: u64 = 2000;
+    if to - from > CHUNK {
+        let exe = std::env::current_exe().expect("current_exe");
+        let mut start = from;
+        while start < to {
+            let end = (start + CHUNK).min(to);
+            let mut cmd = Command::new(&exe);
+            cmd.arg("worker")
+                .arg(prop)
+                .arg(&args[1])
+                .arg(profile)
+                .arg(base.to_string())
+                .arg(start.to_string())
+                .arg(end.to_string());
+            if want_trace {
+                cmd.arg("trace");
+            }
+            let st = cmd.stdout(Stdio::inherit()).stderr(Stdio::null()).status();
+            match st {
+                Ok(s) if s.success() => {}
+                Ok(s) if s.code() == Some(3) => return 3,
+                Ok(s) => {
+                    // the chunk worker died: die the same way so that the parent attributes the
+                    // crash to the last announced run
+                    eprintln!("chunk worker died: {:?}", s);
+                    std::process::exit(101);
+                }
+                Err(_) => std::process::exit(101),
+            }
+            start = end;
+        }
+        return 0;
+    }
     let out = std::io::stdout();
     let mut counters: BTreeMap<String, u64> = BTreeMap::new();
     let mut sets: BTreeMap<String, BTreeSet<u64>> = BTreeMap::new();
@@ -163,7 +200,11 @@ pub fn worker_main(args: &[String]) -> i32 {
     let mut o = out.lock();
     let _ = writeln!(o, "D {}", d);
     let _ = o.flush();
-    0
+    if found {
+        3
+    } else {
+        0
+    }
 }
 
 pub fn write_replay(
@@ -274,34 +315,47 @@ pub fn replay_main(path: &str, quiet: bool) -> i32 {
     let seed = doc["seed"].as_u64().unwrap_or(0);
     let exp_oracle = doc["expect"]["oracle"].as_str().unwrap_or("").to_string();
     if eng.name() == "twin" {
-        // in-process twin plus a fresh child process
-        let rep = eng.run_seed(&profile, seed, &prop, false);
-        let child = std::env::current_exe().ok().and_then(|exe| {
-            Command::new(exe)
-                .arg("twinhash")
-                .arg(&profile)
-                .arg(seed.to_string())
-                .output()
-                .ok()
-        });
-        let child_hash: Option<u64> = child
-            .and_then(|o| String::from_utf8(o.stdout).ok())
-            .and_then(|s| s.trim().parse().ok());
-        let same = rep.violation.is_none() && child_hash == Some(rep.trace_hash);
-        if same {
-            if !quiet {
-                println!("NOT-REPRODUCED property={} (transcripts agree: {:#x})", prop, rep.trace_hash);
+        // Nondeterminism cannot be replayed exactly by its nature; the replay of a C20 finding is
+        // the seed, re-executed several times in this process and in fresh child processes: any two
+        // transcripts that differ reproduce it.
+        let mut hashes: Vec<u64> = vec![];
+        let mut in_process_violation = None;
+        for attempt in 0..4 {
+            let rep = eng.run_seed(&profile, seed, &prop, false);
+            hashes.push(rep.trace_hash);
+            if rep.violation.is_some() && in_process_violation.is_none() {
+                in_process_violation = rep.violation.map(|v| v.detail);
             }
-            return 0;
+            let child = std::env::current_exe().ok().and_then(|exe| {
+                Command::new(exe)
+                    .arg("twinhash")
+                    .arg(&profile)
+                    .arg(seed.to_string())
+                    .output()
+                    .ok()
+            });
+            if let Some(h) = child
+                .and_then(|o| String::from_utf8(o.stdout).ok())
+                .and_then(|s| s.trim().parse::<u64>().ok())
+            {
+                hashes.push(h);
+            }
+            let differ = hashes.iter().any(|h| *h != hashes[0]);
+            if differ || in_process_violation.is_some() {
+                if !quiet {
+                    println!(
+                        "REPRODUCED property={} oracle={} detail=after {} attempt(s): transcripts {:x?}; in-process twin: {:?}",
+                        prop, exp_oracle, attempt + 1, hashes, in_process_violation
+                    );
+                    println!("VIOLATION property={} replay={}", prop, path);
+                }
+                return 1;
+            }
         }
         if !quiet {
-            println!(
-                "REPRODUCED property={} oracle={} detail=in-process twin: {:?}; this process {:#x}, fresh process {:?}",
-                prop, exp_oracle, rep.violation.map(|v| v.detail), rep.trace_hash, child_hash
-            );
-            println!("VIOLATION property={} replay={}", prop, path);
+            println!("NOT-REPRODUCED property={} (8 executions agree: {:#x})", prop, hashes[0]);
         }
-        return 1;
+        return 0;
     }
     let rep = if doc["case"].is_null() {
         eng.run_seed(&profile, seed, &prop, false)
@@ -548,7 +602,10 @@ pub fn run_part(
             Ok(Msg::Eof(w, _)) => {
                 let status = children[w].0.wait().ok();
                 done[w] = true;
-                if !got_summary[w] {
+                let clean_exit = status
+                    .map(|s| s.success() || s.code() == Some(3))
+                    .unwrap_or(false);
+                if !got_summary[w] || !clean_exit {
                     let code = status
                         .map(|s| format!("{:?}", s))
                         .unwrap_or_else(|| "unknown".into());
